@@ -389,10 +389,21 @@ func init() {
 		return nil
 	}
 	nSlices := len(ethertypes) * len(protos)
-	count := func(tier string) int { return len(progs(tier))*nSlices + onOff.Count(tier) + len(attachScns(tier)) }
+	count := func(tier string) int { return len(progs(tier))*nSlices + onOff.Count(tier) + len(attachScns(tier)) + 1 }
 	run := func(tier string, idx int, r *core.ScnResult) {
 		ps := progs(tier)
-		if k := idx - len(ps)*nSlices - onOff.Count(tier); k >= 0 {
+		if k := idx - len(ps)*nSlices - onOff.Count(tier); k >= len(attachScns(tier)) {
+			r.Nontrivial = true
+			for _, sc := range swapScns() {
+				sc := sc
+				r.Evals++
+				if key, d := runSwap(&sc); key != "" {
+					r.Fail(core.Failure{Key: "C12 source/filter-replaced-on-a-live-handle/" + key, What: d, Scenario: core.JSON(map[string]any{"swap": sc})})
+				}
+			}
+			r.Outcome("filter-swaps")
+			return
+		} else if k >= 0 {
 			runAttachScn(&attachScns(tier)[k], r)
 			return
 		}
@@ -443,6 +454,15 @@ func init() {
 		}
 		if s, ok, handled := replayAttach(scn, choices); handled {
 			return s, ok
+		}
+		var sw struct {
+			S *SScn `json:"swap"`
+		}
+		if json.Unmarshal(scn, &sw); sw.S != nil {
+			if key, d := runSwap(sw.S); key != "" {
+				return fmt.Sprintf("swap %s\nORACLE FAILED: %s: %s\n", scn, key, d), false
+			}
+			return "oracle: ok\n", true
 		}
 		return onOff.Replay(scn, choices)
 	}
